@@ -1015,6 +1015,7 @@ type satPlan struct {
 	Load  float64 `json:"load"`  // goroutines as a multiple of the stackless queue capacity
 	Procs int     `json:"procs"` // GOMAXPROCS of the child process (queue capacity = Procs*2048, Procs workers)
 	Seed  int64   `json:"seed"`
+	KiB   int     `json:"input_kib"` // input size (default 100)
 }
 
 // satResult is what the child process reports.
@@ -1049,12 +1050,15 @@ func peakRSSMiB() int {
 // saturationInput: ~100 KiB, a random 1 KiB block repeated with 4 mutated bytes per repetition.
 // Best-compression deflate needs ~1 ms for it and the output is ~3 KiB, so the run is dominated by
 // queueing, not by the monitor's memory.
-func saturationInput(seed int64) []byte {
+func saturationInput(seed int64, kib int) []byte {
+	if kib <= 0 {
+		kib = 100
+	}
 	rnd := rand.New(rand.NewSource(seed))
 	var sb bytes.Buffer
 	blk := make([]byte, 1024)
 	rnd.Read(blk)
-	for sb.Len() < 100<<10 {
+	for sb.Len() < kib<<10 {
 		for k := 0; k < 4; k++ {
 			blk[rnd.Intn(len(blk))] = byte(rnd.Intn(256))
 		}
@@ -1076,7 +1080,7 @@ func TestC22ChildSaturation(t *testing.T) {
 	if err := json.Unmarshal([]byte(os.Getenv("VERIF_C22_SAT")), &p); err != nil {
 		t.Fatal(err)
 	}
-	src := saturationInput(p.Seed)
+	src := saturationInput(p.Seed, p.KiB)
 	queue := runtime.GOMAXPROCS(0) * 2048
 	g := int(float64(queue) * p.Load)
 	var explicit atomic.Int64
@@ -1115,10 +1119,13 @@ func runSaturation(r *mon.Run) {
 				// brotli >= 2 and zstd other than "default" keep 10-50 MiB per encoder state: with the overflow
 				// compressed on the callers' goroutines that is a memory load of its own, not this property
 				satPlan{Codec: "br", API: apiAppendLevel, Level: 1, Load: load, Procs: 2},
-				satPlan{Codec: "zstd", API: apiAppendLevel, Level: fasthttp.CompressZstdDefault, Load: load, Procs: 1},
-				// (every stackless.Writer owns a real encoder state from creation to release, whatever the tree does on overflow)
-				satPlan{Codec: "gzip", API: apiWritePlain, Level: best, Load: load, Procs: 1})
+				satPlan{Codec: "zstd", API: apiAppendLevel, Level: fasthttp.CompressZstdDefault, Load: load, Procs: 1})
 		}
+		// Write*Level to a plain io.Writer: every stackless.Writer owns a real encoder state from creation to
+		// release whatever the tree does on overflow, so thousands of simultaneous calls mean thousands of
+		// states; the cheapest one (Huffman only) and a small input keep that affordable.
+		plans = append(plans, satPlan{Codec: "gzip", API: apiWritePlain, Level: fasthttp.CompressHuffmanOnly, Load: 1.25, Procs: 1, KiB: 16},
+			satPlan{Codec: "deflate", API: apiWritePlain, Level: fasthttp.CompressHuffmanOnly, Load: 1.1, Procs: 1, KiB: 16})
 		plans = append(plans, satPlan{Codec: "gzip", API: apiAppendLevel, Level: best, Load: 1.1, Procs: 4},
 			satPlan{Codec: "deflate", API: apiAppendLevel, Level: 1, Load: 1.05, Procs: 8})
 	}
